@@ -38,20 +38,19 @@ def corrupt(ev, rng):
 
 def run(ctx):
     q = ctx.quick
-    # (a) the design: record-by-record import + transactional rollback meets the post-conditions the trace spec uses
-    ctx.tlc_gen("MC_Snapshot", GEN.format(maxpre=2, maxsnap=2, legacy="FALSE", emit="", inv="FailUnchanged LegacyExplained"),
-                "design", workers=4, timeout=2400)
-    # (b) anti-vacuity: the pinned tree's rollback (delete created nodes only) violates FailUnchanged, and everything it
-    #     leaves behind is characterised by the deviation predicate
+    # (a) the design: the record-by-record import + transactional rollback meets the post-conditions the trace spec
+    #     uses (OkMeetsPost, FailUnchanged); the same run emits one scenario per (pre-existing store, snapshot, keys)
+    scripts = ctx.tlc_gen("MC_Snapshot", GEN.format(maxpre=2, maxsnap=2 if q else 3, legacy="FALSE", emit="ACTION_CONSTRAINT Emit",
+                                                    inv="FailUnchanged LegacyExplained"), "design", workers=4, timeout=3000)
+    # (b) anti-vacuity: the pinned tree's rollback (delete created nodes only) violates FailUnchanged ...
     ctx.tlc_gen("MC_Snapshot", GEN.format(maxpre=2, maxsnap=2, legacy="TRUE", emit="", inv="FailUnchanged"),
                 "selftest-legacy-rollback", expect_violation=True, workers=2)
-    ctx.tlc_gen("MC_Snapshot", GEN.format(maxpre=2, maxsnap=2, legacy="TRUE", emit="", inv="LegacyExplained"),
-                "legacy-explained", workers=4, timeout=2400)
-    # (c) scenarios: every (pre-existing store, snapshot, dedup keys) of the model
-    scripts = ctx.tlc_gen("MC_Snapshot", GEN.format(maxpre=2, maxsnap=2 if q else 3, legacy="FALSE", emit="ACTION_CONSTRAINT Emit", inv=""),
-                          "scenarios", workers=4, timeout=2400)
+    if not q:
+        # ... and everything it leaves behind is characterised exactly by the deviation predicate
+        ctx.tlc_gen("MC_Snapshot", GEN.format(maxpre=2, maxsnap=2, legacy="TRUE", emit="", inv="LegacyExplained"),
+                    "legacy-explained", workers=4, timeout=2400)
     ctx.rng.shuffle(scripts)
-    scripts = scripts[:60 if q else 260]
+    scripts = scripts[:24 if q else 200]
     # pre-existing store loaded through the API (row properties) and through an import (column properties)
     for i, s in enumerate(scripts):
         if i % 2:
